@@ -130,8 +130,56 @@ def run(mid, pids=None, tier="quick"):
     return results
 
 
+def prun(mid, pids=None, tier="quick"):
+    """like run(), but on a scratch worktree (VERIF_DEV_REPO) so that several can run at once and
+    /repo is never touched"""
+    d = os.path.join(SEEDED, mid)
+    meta = json.load(open(os.path.join(d, "meta.json")))
+    pids = pids or [meta["property"]]
+    wt = "/tmp/wt-prun-%s-%d" % (mid, os.getpid())
+    sh(["git", "-C", "/repo", "worktree", "add", "-q", "--detach", wt, "HEAD"])
+    results = {}
+    try:
+        rc, out = sh(["git", "apply", os.path.join(d, "patch.diff")], cwd=wt)
+        if rc != 0:
+            print(mid, "patch no longer applies:", out[-300:])
+            return None
+        for pid in pids:
+            t0 = time.time()
+            e = env()
+            e["VERIF_DEV_REPO"] = wt
+            p = subprocess.run([os.path.join(ROOT, "check"), pid, "--tier", tier], cwd=ROOT, env=e, stdout=subprocess.PIPE, stderr=subprocess.STDOUT, text=True, timeout=7200)
+            rc, out = p.returncode, p.stdout
+            msg = ""
+            lines = out.splitlines()
+            first = ""
+            for i, l in enumerate(lines):
+                if l.startswith("VIOLATION"):
+                    first = l
+                    if i + 1 < len(lines):
+                        msg = lines[i + 1].strip()[:300]
+                    break
+            results[pid] = {"exit": rc, "tier": tier, "wall_s": round(time.time() - t0, 1), "violation": first != "", "first_message": msg}
+            print("%s vs %s [%s]: exit %d %s" % (mid, pid, tier, rc, msg[:200]), flush=True)
+    finally:
+        sh(["git", "-C", "/repo", "worktree", "remove", "--force", wt])
+    if os.environ.get("SEEDED_NO_RECORD") != "1":
+        meta = json.load(open(os.path.join(d, "meta.json")))
+        meta.setdefault("check_results", {}).update(results)
+        json.dump(meta, open(os.path.join(d, "meta.json"), "w"), indent=1)
+    return results
+
+
 def main():
     a = sys.argv[1:]
+    if a[0] == "prun":
+        tier = "quick"
+        rest = a[2:]
+        if rest and rest[0] in ("quick", "thorough"):
+            tier = rest[0]
+            rest = rest[1:]
+        prun(a[1], rest or None, tier)
+        return
     if a[0] == "validate":
         ok, why, ran = validate(a[1], a[2])
         print(a[2], "VALID" if ok else "REJECTED: " + why)
